@@ -19,7 +19,7 @@ def run_c16(pid, tier, seed):
     rep = vlib.Report(pid, tier, seed)
     rep.assumptions += [
         "the probability clause is an integer 7-sigma monitor over one stream of 10 000 datagrams per chance (false-alarm probability about 1e-11 per chance); TLC cannot prove a probability",
-        "the filter is synchronous, so `forwarded during the hand-in call' is the complete observation",
+        "the filter is synchronous, so `forwarded during the hand-in call' is the complete observation; re-entrant use (the next NIC hands in further datagrams from within the call) is judged when the outermost call returns; concurrent callers are not exercised (the property quantifies over input streams)",
     ]
     r = vlib.tlc_must_pass(vlib.run_tlc("loss", "MC_Loss", "MC_Loss.cfg", workers=2), "MC_Loss")
     rep.add_tlc(r)
@@ -32,6 +32,11 @@ def run_c16(pid, tier, seed):
                                                  "VERIF_ALL": 1 if tier == "thorough" else 0}):
         return rep.finish()
     lines = vlib.read_ndjson(tp)
+    tp2 = os.path.join(d, "loss2.trace")
+    if not go_run(rep, repo, "^TestVerifLossReentrant$", {"VERIF_TRACE": tp2, "VERIF_SEED": seed,
+                                                          "VERIF_RUNS": 150 if tier != "thorough" else 1500}):
+        return rep.finish()
+    lines += vlib.read_ndjson(tp2)
     rep.extra["trace_events"] = len(lines)
     n_ok, fails, st = vlib.validate_scenarios("loss", "TraceLoss", "TraceLoss.cfg", lines, batch=45000)
     rep.traces = n_ok + len(fails)
@@ -40,13 +45,13 @@ def run_c16(pid, tier, seed):
     rep.sample(scs[3][1][:5])
     stats = {}
     for _, sc in scs:
-        stats[sc[0]["chance"]] = sum(1 for e in sc[1:] if e["ev"] == "arr" and not e["out"])
+        stats[sc[0]["chance"]] = stats.get(sc[0]["chance"], 0) + sum(1 for e in sc[1:] if e["ev"] == "arr" and not e["out"])
     rep.extra["drops_per_chance"] = stats
     for fl in fails:
         sc = fl["scenario"]
         k = fl["matched"]
         bad = fl["first_unmatched"]
-        nd = sum(1 for e in sc[1:k] if e["ev"] == "arr" and not e["out"])
+        nd = sum(1 for e in sc[1:k] if e["ev"] == "arr" and not e["out"]) + sum(len(e["arrs"]) - len(e["out"]) for e in sc[1:k] if e["ev"] == "batch")
         rep.violation({"chance": sc[0]["chance"], "line": bad, "arrivals": k - 1, "drops": nd,
                        "spec": "specs/loss/TraceLoss.tla"},
                       "LossFilter chance=%d: after %d arrivals (%d dropped) the event %s is not allowed by LossFilter.tla"
@@ -75,7 +80,7 @@ def run_c15(pid, tier, seed):
     rep.assumptions += [
         "virtual time (testing/synctest, go1.26.8, asynctimerchan=0); rates are multiples of 8000 bit/s so the automaton is integer-exact; 1 byte of slack for the implementation's float arithmetic",
         "run-time changes: a lowered rate/burst keeps counting for 1000 ms, a raised one refills the virtual bucket (most lenient reading of `also across run-time changes')",
-        "the `kept' hint (was the datagram queued) is read from the filter's queue in-package; it only selects the branch, legality of a discard is judged by the spec (queue full)",
+        "whether an arriving datagram was kept is decided at the end of each run: rate and burst are raised through the public setters until the queue has run empty, and a datagram counts as kept exactly if it was forwarded by then; a discard is legal only if the queue was full on arrival (judged by the specification)",
     ]
     r = vlib.tlc_must_pass(vlib.run_tlc("tbf", "MC_TBF", "MC_TBF.cfg"), "MC_TBF")
     rep.add_tlc(r)
